@@ -39,10 +39,17 @@ for key in sorted(final):
             for c,e,rest in re.findall(r'(C\d+) exit=(\d)\s*((?:C\d\d/[^ ]+)?)',mm.group(3)):
                 if e=='1' and c!=mm.group(1):
                     cross[csid]=(cross.get(csid,'')+f"; caught by {c} ({rest})").lstrip('; ')
-    notcaught={}
+    notcaught={
+     "C05-w9m1":"not caught by a quick check (C05, C08): needs a reassembly snapshot, one import call that lists several captures out of chronological order, and in a later one of them packets older than the snapshot that belong to a flow already finished at the snapshot",
+     "C05-w9m2":"not caught by a quick check (C05, C08, C12): the stale snapshot file left behind by the first import after a restart matters only after an out-of-order import and a second restart followed by a capture that continues the flow (same family as C12-w6m2)",
+     "C07-w9m2":"not caught by a quick check (C07, C10, C12): needs an import whose index file is written while a merge is running, a stream of the merged files extended by that import, and a restart; reachable by the schedules (file modification times follow the real order of the job bodies) but too rare for the quick budgets",
+     "C12-w9m2":"not caught by a quick check: needs a tag with two converters of which the one attached first is not loadable at the restart; converters that are not executable at a restart are only generated in C16/C06 plans, which do not compare attachments across the restart",
+     "C16-w9m1":"not caught by a quick check: the superseded converter object is reset when its job completes after the converter's file was removed and created again, which truncates the cache file under the new converter; needs that sequence plus an on-demand conversion through the new converter before the old job completes",
+    }
     why="added after reading the author's summary of this change and before its first run (wave 9 was run once, with the strengthened checks; the first column is that run unless a later one is recorded)"
     pre={"C10-w9m1":"paged searches in the held-view battery: "+why,"C10-w9m2":"paged searches in the held-view battery: "+why,"C15-w9m2":"stores with 57 and more chunks: "+why,"C09-w9m1":"a converter whose file cannot be started: "+why,"C20-w9m2":"ConverterStderr calls: "+why,"C20-w9m1":"first-page-with-prefetched-tags calls: "+why,"C11-w9m2":"acknowledged marks must stay: "+why,"C13-w9m1":"a held view must not return a stream it does not list: "+why}
-    firstover={}
+    fa="the first run printed exit=1 for a false alarm of the harness (C12 second life importing the remaining captures after a restart with an import still queued, DESIGN §8.3), the same line for both C12 changes of this wave, not for this change: counted as missed"
+    firstover={"C12-w9m1":fa,"C12-w9m2":fa}
     if sid in firstover:
         m2["first_run"]["note"]=firstover[sid]
         m2["first_run"]["checks"]=[{"check":prop,"tier":"quick","exit":0,"detected":False}]
